@@ -234,3 +234,38 @@ pub fn mix(mut x: u64) -> u64 {
     x = (x ^ (x >> 27)).wrapping_mul(0x94D049BB133111EB);
     x ^ (x >> 31)
 }
+
+/// Progress watchdog: every worker publishes the evaluation it is running; if one evaluation of these
+/// tiny inputs makes no progress for `LIMIT_S` seconds (normal: milliseconds) the process writes
+/// `<out>.hung` with the case and exits with code 3.  The python driver then re-runs that single case
+/// with the same limit to confirm before anything is reported.
+pub struct Watchdog {
+    slots: std::sync::Arc<std::sync::Mutex<Vec<Option<(std::time::Instant, String)>>>>,
+}
+pub const LIMIT_S: u64 = 150;
+
+impl Watchdog {
+    pub fn start(n: usize, out: String) -> Watchdog {
+        let slots: std::sync::Arc<std::sync::Mutex<Vec<Option<(std::time::Instant, String)>>>> = std::sync::Arc::new(std::sync::Mutex::new(vec![None; n]));
+        let s2 = slots.clone();
+        std::thread::spawn(move || loop {
+            std::thread::sleep(std::time::Duration::from_secs(3));
+            let g = s2.lock().unwrap();
+            for s in g.iter().flatten() {
+                let limit = std::env::var("VOPS_WATCHDOG_S").ok().and_then(|v| v.parse().ok()).unwrap_or(LIMIT_S);
+                if s.0.elapsed().as_secs() >= limit {
+                    std::fs::write(format!("{out}.hung"), &s.1).ok();
+                    eprintln!("watchdog: evaluation made no progress for {LIMIT_S}s");
+                    std::process::exit(3);
+                }
+            }
+        });
+        Watchdog { slots }
+    }
+    pub fn enter(&self, worker: usize, what: String) {
+        self.slots.lock().unwrap()[worker] = Some((std::time::Instant::now(), what));
+    }
+    pub fn leave(&self, worker: usize) {
+        self.slots.lock().unwrap()[worker] = None;
+    }
+}
